@@ -294,6 +294,29 @@ def tiny_scripts(rng):
     return out
 
 
+def jpeg_scripts(rng):
+    """deterministic, every quality level 0..9: `flat16` content (16x16-aligned flat blocks, all different, the
+    first ones pure red / green / blue / black / white) on 32-bpp screens with 8-8-8 client formats — the
+    content for which the JPEG error bound is derivable — requested as a whole and as 16-aligned parts."""
+    out = []
+    W, H = 208, 160
+    fmts = ["server", "rgb888le", "bgr888be", "rgbx_le", "rgb888be"]
+    for q in range(10):
+        fmtn = fmts[q % len(fmts)]
+        lines = ["screen %d %d 4" % (W, H), "client"]
+        if fmtn != "server":
+            lines.append("fmt " + " ".join(str(v) for v in FORMATS[fmtn]))
+        lines.append("enc %d %d %d" % (ENC["tight"], -256 + (1 if q % 2 else 2), -32 + q))
+        lines.append("paint flat16 %d 0 0 %d %d 200 0" % (rng.randrange(1 << 30), W, H))
+        lines.append("req 0 0 0 %d %d" % (W, H))
+        lines.append("req 0 32 16 144 128")
+        lines.append("paint flat16 %d 48 32 160 128 200 0" % rng.randrange(1 << 30))
+        lines.append("req 0 48 32 160 128")
+        out.append(("\n".join(lines) + "\n", {"sb": 4, "W": W, "H": H, "enc": "tight", "fmt": fmtn, "big": False,
+                                               "lossy": True, "quality": q, "boundary": True}))
+    return out
+
+
 def stream_scripts(rng):
     """deterministic: the zlib streams of a connection persist across SetEncodings.  For every
     stream-carrying encoding (Zlib; Tight's streams 0 = full colour, 1 = mono, 2 = indexed; TightPng's basic
@@ -625,11 +648,17 @@ def process(args):
             if r["px"] is None:
                 continue
             if r["lossy"]:
+                # arbitrary content: measured only (statistic in the evidence), never a failure
                 e = chan_err(fmt, r["px"], ref)
                 key = "%s q=%s" % (name, meta.get("quality"))
                 res["lossy_err"][key] = max(res["lossy_err"].get(key, 0), e)
-                if e > lossy_bound(meta):
-                    fail("oracle", "lossy rectangle differs by %d > bound %d per channel" % (e, lossy_bound(meta)), op)
+                if r.get("jpeg") is not None:
+                    try:
+                        bad = jpeg_flat_check(r, fmt, ref, res)
+                    except D.Malformed as ex:
+                        bad = str(ex)
+                    if bad:
+                        fail("oracle", "Tight JPEG rectangle %d,%d %dx%d: %s" % (r["x"], r["y"], r["w"], r["h"], bad), op)
             elif r["still"] is not None and r["px"] != ref:
                 # TightPng: the image holds the server's colours at 8 bits; exact only up to the client's rescaling
                 e = chan_err(fmt, r["px"], ref)
@@ -734,26 +763,84 @@ def model_payload(r):
     return r["dwire"]
 
 
-# per-channel error bounds (0..255 scale) for the lossy variants.  Derived from measurement over the
-# content generators of this file at all seeds listed in docs/C01.md (observed maxima in the evidence,
-# `lossy_max_channel_error`), with head-room; JPEG error grows as the quality level falls.
-# measured maxima over 600 lossy scripts (seeds 5, 6; smooth / flat / block content incl. the soft cursor's
-# hard edges): q0 222, q1 217, q2 161, q3 164, q4 139, q5 131, q6 111, q7 72, q8 41, q9 8
-JPEG_BOUND = {0: 255, 1: 250, 2: 205, 3: 205, 4: 180, 5: 170, 6: 150, 7: 105, 8: 65, 9: 20}
+# NO empirical error bound fails this check.  For arbitrary content the per-channel error of the lossy variants
+# is only MEASURED (evidence: lossy_max_channel_error).  What fails:
+#   * structural errors: the JPEG data does not decode, has another size than the rectangle, is not baseline
+#     3-component YCbCr;
+#   * the DERIVED bound on flat MCUs (jpeg_flat_check): for every MCU-aligned block of the rectangle that is one
+#     flat colour in the reference, the only non-zero DCT coefficient of every component is DC = 8*(sample-128),
+#     quantised with the step q found in the JPEG's own DQT segment: the reconstructed sample is off by at most
+#     q/16, plus 1.5 for the fixed-point roundings (RGB->YCbCr 0.5, inverse DCT 0.5, safety 0.5).  Through
+#     R = Y + 1.402 Cr, G = Y - 0.344 Cb - 0.714 Cr, B = Y + 1.772 Cb and the final rounding (+1) this gives the
+#     per-channel bounds below; range clamping only moves a value towards the (in-range) truth.  The harness
+#     decodes with plain chroma replication (do_fancy_upsampling = FALSE), so a flat MCU does not see its
+#     neighbours.  A swapped channel order turns the pure red / green / blue blocks of the `flat16` content into
+#     errors of 255.
 
 
-def lossy_bound(meta):
-    q = meta.get("quality")
-    if meta.get("enc") == "tight" and q is not None:
-        return JPEG_BOUND.get(q, 255)
-    return 255
+def jpeg_flat_bounds(tab):
+    comps = tab["comps"]
+    if len(comps) != 3:
+        raise D.Malformed("jpeg: %d components (YCbCr expected)" % len(comps))
+    ey = tab["qdc"][comps[0][3]] / 16.0 + 1.5
+    ecb = tab["qdc"][comps[1][3]] / 16.0 + 1.5
+    ecr = tab["qdc"][comps[2][3]] / 16.0 + 1.5
+    return (ey + 1.402 * ecr + 1.0, ey + 0.344136 * ecb + 0.714136 * ecr + 1.0, ey + 1.772 * ecb + 1.0)
+
+
+def jpeg_flat_check(r, fmt, ref, res):
+    """derived-bound oracle on flat MCUs; -> error text or None.  Only for 8-bit-per-channel client formats
+    (error in 8-bit units is then exactly the JPEG sample error)."""
+    tab = D.jpeg_tables(r["jpeg"])
+    if (tab["w"], tab["h"]) != (r["w"], r["h"]):
+        return "JPEG image is %dx%d, rectangle is %dx%d" % (tab["w"], tab["h"], r["w"], r["h"])
+    if not (fmt.rmax == fmt.gmax == fmt.bmax == 255):
+        return None
+    comps = tab["comps"]
+    hmax, vmax = max(c[1] for c in comps), max(c[2] for c in comps)
+    if hmax > 2 or vmax > 2:
+        return None
+    bw, bh = 8 * hmax, 8 * vmax
+    bounds = jpeg_flat_bounds(tab)
+    bpp, w, h, px = fmt.bytespp, r["w"], r["h"], r["px"]
+    st = res["stats"].setdefault("jpeg", {})
+    for by in range(0, h, bh):
+        for bx in range(0, w, bw):
+            cw, ch = min(bw, w - bx), min(bh, h - by)
+            first = ref[(by * w + bx) * bpp:(by * w + bx + 1) * bpp]
+            rows = [ref[((by + yy) * w + bx) * bpp:((by + yy) * w + bx + cw) * bpp] for yy in range(ch)]
+            if any(rw != first * cw for rw in rows):
+                st["mcus_not_flat(measured only)"] = st.get("mcus_not_flat(measured only)", 0) + 1
+                continue
+            st["flat_mcus_checked_against_derived_bound"] = st.get("flat_mcus_checked_against_derived_bound", 0) + 1
+            want = fmt.comps(first)
+            seen = set()
+            for yy in range(ch):
+                row = px[((by + yy) * w + bx) * bpp:((by + yy) * w + bx + cw) * bpp]
+                if row == first * cw:
+                    continue
+                for xx in range(cw):
+                    pb = row[xx * bpp:(xx + 1) * bpp]
+                    if pb in seen:
+                        continue
+                    seen.add(pb)
+                    got = fmt.comps(pb)
+                    for k in range(3):
+                        if abs(got[k] - want[k]) > bounds[k]:
+                            return ("flat %dx%d block at %d,%d of colour %r decodes to %r at %d,%d: channel %s off by %d > derived bound %.1f (DC steps %r)"
+                                    % (cw, ch, bx, by, want, got, bx + xx, by + yy, "RGB"[k], abs(got[k] - want[k]), bounds[k], tab["qdc"]))
+    return None
 
 
 def png_bound(srv, fmt):
-    """TightPng carries the SERVER's colours rescaled to 8 bits per channel; how a client rescales them to
-    its own channel widths is not specified anywhere.  With the colour-scaling rule (c8*max+127)/255 the
-    result equals the translated framebuffer exactly whenever the server's or the client's channels are
-    8 bits wide; otherwise double rounding may cost one least-significant step of the client channel."""
+    """DERIVED tolerance, not a measured one.  TightPng carries the SERVER's colours rescaled to 8 bits per
+    channel, c8 = round(cs*255/ms) (tight.c PrepareRowForImg); how a client rescales them to its own channel
+    widths is not specified anywhere, this oracle uses the colour-scaling rule cc' = round(c8*mc/255).  The
+    reference is the direct translation cc = round(cs*mc/ms).
+      * ms = 255: c8 = cs, so cc' = cc.   * mc = 255: cc' = c8 = round(cs*255/ms) = cc.   -> exact (bound 0).
+      * otherwise |c8*mc/255 - cs*mc/ms| = |c8 - cs*255/ms| * mc/255 <= 0.5 * mc/255 < 0.5, and two reals less
+        than 0.5 apart round to integers at most 1 apart: one least-significant step of the client channel,
+        i.e. ceil(255/mc) on the 0..255 scale used by chan_err."""
     if all(m == 255 for m in (srv.rmax, srv.gmax, srv.bmax)) or all(m == 255 for m in (fmt.rmax, fmt.gmax, fmt.bmax)):
         return 0
     return max(-(-255 // m) for m in (fmt.rmax, fmt.gmax, fmt.bmax) if m)
@@ -796,6 +883,8 @@ def run(ctx):
             cases.append(sc)
         for sc in stream_scripts(ctx.rng):
             cases.append(sc)
+        for sc in jpeg_scripts(ctx.rng):
+            cases.append(sc)
         nlossy = 20 if ctx.tier == "quick" else 300
         for k in range(nlossy):
             cases.append(gen_script(ctx.rng, ctx.tier, {"enc": "tight", "quality": k % 10, "sb": ctx.rng.choice([2, 4, 4]),
@@ -832,7 +921,7 @@ def run(ctx):
         if len(samples) < 3:
             samples.append({"script": sc.splitlines()[:40], "meta": meta})
     dist.update({"wire_rects_by_encoding": stats.get("enc", {}), "hextile_tile_flags": stats.get("hextile", {}),
-                 "zrle_tile_modes": stats.get("zrle", {}), "tight_subencodings": stats.get("tight", {}), "notes": stats.get("notes", {}), "rects_predicted_by_model_per_encoder": stats.get("model", {}),
+                 "zrle_tile_modes": stats.get("zrle", {}), "tight_subencodings": stats.get("tight", {}), "notes": stats.get("notes", {}), "rects_predicted_by_model_per_encoder": stats.get("model", {}), "jpeg_flat_mcu_oracle": stats.get("jpeg", {}),
                  "pixels_decoded": npix, "rects_spec_decoded_in_lean": lean_rects,
                  "rects_predicted_by_model": model_rects, "lossy_max_channel_error": lossy_err,
                  "wall_correspondence_s": round(time.time() - t0, 1)})
@@ -849,7 +938,7 @@ PARTIAL = [
     "TightPng: PNG rectangles have no model (PNG codec trusted); its basic rectangles (8 bpp) are validated per run by the independent decoders only",
     "Ultra: container proved under LzoLaw (ultra_rect_decodes); the LZO codec itself is trusted (repository's minilzo decompressor in the harness)",
     "TightPng PNG rectangles: exact whenever the server's or the client's colour channels are 8 bits wide; for other combinations (e.g. 5-bit server channels, 7-bit client channels) the client-side rescaling of the 8-bit PNG samples is unspecified and double rounding may cost one least-significant step of the client channel (bound png_bound, measured maximum in the evidence)",
-    "Tight-JPEG: per-run validation only, per-channel error bound by quality level (JPEG_BOUND in vlib/props/c01.py, measured maxima in the evidence)",
+    "LOSSY CLAUSE IS VALIDATED, NOT PROVED.  Tight-JPEG: for arbitrary content the per-channel error is only measured (evidence: lossy_max_channel_error), it never fails the check.  What fails: JPEG data that does not decode / has the wrong size / is not baseline YCbCr, and — on MCU-aligned blocks that are one flat colour (deterministic `flat16` content at every quality level, incl. pure red/green/blue blocks for the channel order) — a per-channel error above the bound DERIVED from the DC quantisation steps found in the rectangle's own DQT segment (q/16 + rounding, through the YCbCr->RGB factors; vlib/props/c01.py jpeg_flat_bounds)",
     "ZYWRLE: per-run validation of the container and of every tile that is not wavelet-coded (exact); wavelet-coded raw tiles are only checked for well-formedness (no inverse transform, no error bound)",
     "the model abstracts zrlePaletteHelper's hash table to 'index of first occurrence in the palette list'",
     "translation to the client's pixel format (translate.c) is trusted here (subject of C10): the snapshot is produced by the harness's own call of cl->translateFn on the whole rectangle",
